@@ -1,10 +1,12 @@
 (** Property C04 — the Kemeny score a consensus reports is the true score of each returned ranking.
-    Status (PARTIAL): proved — the true score is never negative (so the [-1.] sentinel is never a score),
-    PickAPerm's reported minimum is the score of every ranking it returns, the definitional cost table sums
-    to the score (what the solver objective and BioConsert's bookkeeping are built on).  Judged per run in
-    Coq for every algorithm and both values of return_at_most_one_ranking: reported score present, equal to
-    [kemeny_spec] of EVERY returned ranking. *)
-From Corankco Require Import Prelude Scheme SchemeProof Rank KemenySpec CostTable CostTableProof Borda PickAPerm PickAPermProof.
+    Status: proved for each way a score is produced except one — the score computed on demand by the
+    Consensus object is the definition (C01's main theorem), the solver objective of the exact algorithm is
+    the score of the decoded ranking (C05's formulation theorem), PickAPerm's reported minimum is the score
+    of every ranking it returns, the true score is never negative (so the [-1.] sentinel is never a score),
+    the definitional cost table sums to the score.  PARTIAL for BioConsert's bookkeeping (initial score +
+    accumulated deltas): judged per run only.  Judged per run in Coq for every algorithm and both values of
+    return_at_most_one_ranking: reported score present, equal to [kemeny_spec] of EVERY returned ranking. *)
+From Corankco Require Import Prelude Scheme SchemeProof Rank KemenySpec CostTable CostTableProof Borda PickAPerm PickAPermProof KemenyImpl KemenyCount OptTheory PartitionProof ILP ILPProof.
 Local Open Scope Z_scope.
 
 Theorem C04_score_nonneg : forall s D c, nonneg s -> 0 <= kemeny_spec s D c.
@@ -26,3 +28,22 @@ Theorem C04_table_sums_to_score : forall s D c,
   score (table_on (universe D) (cost_table s D)) c = kemeny_spec s D c.
 Proof. exact cost_table_sums_to_kemeny. Qed.
 Print Assumptions C04_table_sums_to_score.
+
+(** the score computed on demand (Consensus.kemeny_score -> KemenyComputingFactory) is the definition *)
+Theorem C04_on_demand_score : forall s D c,
+  relations s -> NoDup (elems c) ->
+  (forall r, In r D -> NoDup (elems r)) ->
+  (forall r x, In r D -> ranked r x -> ranked c x) ->
+  get_kemeny_score s D c = Ok (kemeny_spec s D c).
+Proof. exact get_kemeny_score_correct. Qed.
+Print Assumptions C04_on_demand_score.
+
+(** the objective value that the exact algorithm reports is the score of the ranking it decodes *)
+Theorem C04_solver_objective : forall s D n P v,
+  valid s -> Feas n P v ->
+  kemeny_spec s D (decode n v) = obj_value (cost_spec s D) n v.
+Proof.
+  intros s D n P v Hv F. rewrite <- score_cost_spec.
+  exact (proj2 (decode_score (cost_spec s D) n P v (cost_spec_mirror' s D Hv) F)).
+Qed.
+Print Assumptions C04_solver_objective.
